@@ -37,6 +37,7 @@ def run(ctx):
     ctx.guard(_scope.symbols_exact, ctx, 'C06-SYMBOLS')
     ctx.guard(params_rule, ctx)
     ctx.guard(context_rule, ctx)
+    ctx.guard(walker_state, ctx)
     from . import c08 as _c08, c13 as _c13, lexrules as _lex
     _g = _lex.grammar_of(ctx.repo, 'bridgepoint.oal:OALParser')
     ctx.shared(_c08.taint, ctx, _g, _c08.keyword_fields(ctx, _g))   # cardinality keywords decide V_INT / V_INS and the select subtype
@@ -196,7 +197,13 @@ def subtype_rule(ctx, ki):
                 extra = None
                 if helper == 'act_smt' and has_param:
                     # the statement is handed in by the caller; it counts when the path takes an `if act_smt` branch
-                    if any(n.kind == 'test' and src(n.ast) == 'act_smt' and lab == 'T' for n, lab in p):
+                    # (assume it is there: a path is then infeasible only where a test of the parameter ALONE says otherwise; a compound
+                    # test such as `act_smt and <more>` can go either way, and the statement still needs its subtype when it fails)
+                    tests_ = [(src(n.ast), lab) for n, lab in p if n.kind == 'test']
+                    absent = any((t_ == 'act_smt' and lab == 'F') or (t_ == 'not act_smt' and lab == 'T') or (t_ == 'act_smt is None' and lab == 'T') or
+                                 (t_ == 'act_smt is not None' and lab == 'F') for t_, lab in tests_)
+                    mentioned = any(isinstance(x, ast.Name) and x.id == 'act_smt' for n, lab in p if n.kind == 'test' for x in ast.walk(n.ast))
+                    if mentioned and not absent:
                         extra = 'act_smt'
                 created = _relates_per_creation(p, helper, sc, extra)
                 if not created:
@@ -651,3 +658,65 @@ def oblig_rule(ctx, ki):
                 r.check(done, '%s: new %s `%s` is related over R%d' % (q, kk, var, rel), call, construct=q, key='oblig %s R%d' % (kk, rel),
                         msg='%s creates %s (`%s`) but never relates it over R%d, which the schema makes unconditional for %s (%s)'
                             % (q, kk, var, rel, kk, '; '.join(repr(x) for x in sc.by_rel[rel] if kk in (x.src_kind, x.tgt_kind))[:160]))
+
+
+def walker_state(ctx):
+    """Constructs nest (an if inside an elif block, a select inside a where clause ...), and one walker translates the whole body: what a
+    handler knows about ITS construct lives in locals and is handed to the handlers of the parts as an argument.  A walker attribute that a
+    handler of a nestable construct sets to a per-construct value and that is read after another dispatch is overwritten by the nested
+    construct of the same kind."""
+    repo = ctx.repo
+    r = ctx.rule('C06-WALKERSTATE', 'handlers of nestable constructs keep per-construct context in locals / arguments, not in walker attributes', floor=40,
+                 oracle='grammar: every statement and expression construct can occur inside itself; only the body is the root')
+    from . import nodes as _nodes
+    f = _nodes.facts(repo)
+    g = f.g
+    # BodyNode is built by the start production only: its handler runs once per walk
+    root_heads = set(p_.head for p_ in f.constructible.get('BodyNode', []))
+    root_only = bool(root_heads) and not any(h in p_.syms for h in root_heads for p_ in g.productions)
+    n = 0
+    for c in repo.classes('bridgepoint.prebuild'):
+        handlers = [m for m in c.body if isinstance(m, ast.FunctionDef) and m.name.startswith('accept_')]
+        if not handlers:
+            continue
+        reads = {}
+        for m in handlers + [x for x in c.body if isinstance(x, ast.FunctionDef) and not x.name.startswith('accept_') and x.name != '__init__']:
+            for x in ast.walk(m):
+                if isinstance(x, ast.Attribute) and isinstance(x.value, ast.Name) and x.value.id == 'self' and isinstance(x.ctx, ast.Load):
+                    reads.setdefault(x.attr, []).append((m, x))
+        for m in handlers:
+            n += 1
+            q = 'bridgepoint.prebuild:%s.%s' % (c.name, m.name)
+            if m.name == 'accept_BodyNode' and root_only:
+                r.ok('%s translates the root of the tree: it runs once per walk' % q, m, construct=q)
+                continue
+            stores = [st for st in ast.walk(m) if isinstance(st, (ast.Assign, ast.AugAssign))
+                      for t in (st.targets if isinstance(st, ast.Assign) else [st.target])
+                      if isinstance(t, ast.Attribute) and isinstance(t.value, ast.Name) and t.value.id == 'self']
+            bad = None
+            for st in stores:
+                t = [t for t in (st.targets if isinstance(st, ast.Assign) else [st.target]) if isinstance(t, ast.Attribute)][0]
+                if isinstance(st, ast.Assign) and isinstance(st.value, ast.Constant):
+                    continue           # a mode toggle (is_lvalue = True ... False) carries nothing of the construct
+                # saved before and restored afterwards?
+                saved = [a for a in ast.walk(m) if isinstance(a, ast.Assign) and len(a.targets) == 1 and isinstance(a.targets[0], ast.Name)
+                         and src(a.value) == src(t) and a.lineno < st.lineno]
+                restored = [b for b in ast.walk(m) if isinstance(b, ast.Assign) and any(src(x) == src(t) for x in b.targets) and b.lineno > st.lineno
+                            and isinstance(b.value, ast.Name) and any(b.value.id == a.targets[0].id for a in saved)]
+                if saved and restored:
+                    continue
+                later = [(m2, x) for m2, x in reads.get(t.attr, []) if m2 is not m or
+                         any(isinstance(d, ast.Call) and src(d.func) == 'self.accept' and st.lineno < d.lineno <= x.lineno for d in ast.walk(m))]
+                if later:
+                    bad = (st, t, later[0])
+                    break
+            if bad:
+                st, t, (m2, x) = bad
+                r.violation('%s keeps the context of its construct in the walker attribute `%s` (`%s`), which %s reads after further parts of the tree '
+                            'were translated: a nested construct of the same kind (inside a block, a where clause, a parameter) overwrites it, and the '
+                            'outer construct\'s later parts are attached to the inner one' % (q, src(t), src(st)[:80], m2.name), st, construct=q,
+                            key='walker-attr ' + t.attr)
+            else:
+                r.ok('%s keeps nothing of its construct on the walker' % q, m, construct=q)
+    if n < 40:
+        raise AnalysisError('only %d prebuild handlers found' % n)
